@@ -177,6 +177,7 @@ class Run:
         from midgard import writers
 
         before = c16_canon.digest(inputs)
+        self.before_each = {k: c16_canon.digest(v) for k, v in inputs.items()}
         fp = self.path(writer)
         try:
             with quiet():
@@ -190,8 +191,9 @@ class Run:
             return f"!!{name}: {e}"
         after = c16_canon.digest(inputs)
         if before != after:
-            changed = [k for k, v in inputs.items() if c16_canon.digest(v) != case.get("_digests", {}).get(k)]
-            self.ctx.violate(f"input-mutated:{writer}", f"{writer} changed the objects it was given: {changed}", case)
+            changed = [k for k, v in inputs.items() if c16_canon.digest(v) != self.before_each.get(k)]
+            self.ctx.violate(f"input-mutated:{writer}", f"{writer} changed the objects it was given: {changed}"
+                             + (f"; fields is now {inputs['fields']}" if "fields" in changed else ""), case)
         try:
             return fp.read_text()
         except FileNotFoundError:
@@ -674,17 +676,20 @@ def case_csv(run: Run, rng):
     fields = {}
     if rng.random() < 0.8:
         fields["date"] = rng.choice(["s", "%s" if False else "s"])
-    fields["satellite"] = "s"
+    # '' is the documented way to ask for the default; a specifier with none of s/d/f ('.3e', 'g') falls back to it too
+    fields["satellite"] = rng.choice(["s", "s", ""])
     if rng.random() < 0.8:
-        fields["amplitude"] = rng.choice([".2f", ".3f", ".0f"])
+        fields["amplitude"] = rng.choice([".2f", ".3f", ".0f", "", ".3e", "g"])
     fields["height"] = rng.choice([".4f", ".1f"])
     if rng.random() < 0.5:
-        fields["nobs"] = ".0f"
+        fields["nobs"] = rng.choice([".0f", "d", ""])
     case = {"writer": "csv_", "num_obs": n, "fields": dict(fields), "times": [str(t) for t in times[:8]],
             "amplitude": np.asarray(d.amplitude)[:8].tolist(), "height": np.asarray(d.height)[:8].tolist()}
     ctx.case(case, nontrivial=True)
     ctx.count("csv_")
     want_fields = dict(fields)
+    # the format the writer is documented to use: s, d, f as given; anything else (incl. '') is the default 's'
+    eff = {k: ("s" if "s" in f else "d" if "d" in f else f if "f" in f else "s") for k, f in want_fields.items()}
     dates = [t.strftime("%Y-%m-%d %H:%M:%S") for t in d.time.datetime]
     cols = {k: (dates if k == "date" else np.asarray(d[k]).tolist()) for k in want_fields}
     text = run.write("csv_", {"dset": d, "fields": fields}, case)
@@ -714,13 +719,13 @@ def case_csv(run: Run, rng):
             ctx.violate("csv_:raises", f"csv_ raised: {text[:160]}", case)
             return
     lines = text.splitlines()
-    fm = ",".join("s" if f == "s" else ("d" if f == "d" else "f" + f[1:-1]) for f in want_fields.values())
+    fm = ",".join("s" if f == "s" else ("d" if f == "d" else "f" + f[1:-1]) for f in eff.values())
     rows = []
     for i in range(n):
         vs = []
-        for k, f in want_fields.items():
+        for k, f in eff.items():
             v = cols[k][i]
-            vs.append(sval(str(v)) if f == "s" else val(v))
+            vs.append(sval(str(v)) if f == "s" else (f"i:{int(v)}" if f == "d" else val(v)))
         rows.append(f"{hexs(dates[i])}@" + ";".join(vs))
     model = unhex_lines(drv.ask1(f"c17 csv {fm} {'|'.join(rows)}"))
     if model != lines[1:]:
@@ -737,14 +742,24 @@ def case_csv(run: Run, rng):
             ctx.violate("csv_:readback-raises", f"csv_ parser cannot read the written file: {type(e).__name__}: {e}", case)
             return
     order = sorted(range(n), key=lambda i: dates[i])
-    for k, f in want_fields.items():
-        if f == "s":
+    for k, f in eff.items():
+        if f == "s" and cols[k] and isinstance(cols[k][0], float):
+            # a number printed with the default format (its shortest repr): reads back to the very same double
+            got = back.get(k)
+            if got is None and all(math.isnan(cols[k][i]) for i in order):
+                continue
+            if got is None or any(not (float(g) == cols[k][i] or (math.isnan(float(g)) and math.isnan(cols[k][i])))
+                                  for g, i in zip(got, order)):
+                ctx.violate("csv_:readback-values", f"column {k} (default format): wrote {[cols[k][i] for i in order][:4]} read "
+                            f"{None if got is None else list(got)[:4]}", case)
+                return
+        elif f == "s":
             got = [str(x) for x in back.get(k, [])]
             if got != [str(cols[k][i]) for i in order]:
                 ctx.violate("csv_:readback-values", f"text column {k}: wrote {[cols[k][i] for i in order][:4]} read {got[:4]}", case)
                 return
         else:
-            prec = int(f[1:-1])
+            prec = 0 if f == "d" else int(f[1:-1])
             got = back.get(k)
             if got is None:
                 if all(math.isnan(cols[k][i]) for i in order):
@@ -816,23 +831,6 @@ def run(ctx: Ctx, prove: bool = True):
         ctx.traces = ctx.evaluations
     finally:
         shutil.rmtree(tmp, ignore_errors=True)
-    escalate_unexplained(ctx)
-
-
-def escalate_unexplained(ctx: Ctx):
-    """a listed known finding must not hide a broken obligation/correspondence (see harness/c16.py)"""
-    known = {k for k, _ in common.load_known(ctx.prop)[0]}
-    if not known or any(v.key not in known for v in ctx.violations) or not ctx.violations:
-        return
-    broken = []
-    if ctx.proof is not None and not ctx.proof.ok:
-        broken += [f"theorem/obligation: {f}" for f in ctx.proof.failed] or ["theorem/obligation: lake build failed"]
-    broken += sorted({f"correspondence: {d['correspondence']}" for d in ctx.corr_broken})
-    if broken:
-        ctx.violate("no-failing-input-found:" + broken[0][:80],
-                    "no-failing-input-found (beyond the listed findings), but " + "; ".join(broken)[:600],
-                    {"no_longer_checks": broken, "disagreements": ctx.corr_broken[:10],
-                     "build_log_tail": ctx.proof.log_tail if ctx.proof is not None else ""})
 
 
 def replay(payload):
